@@ -722,13 +722,15 @@ def op_c09(args):
                 ovr[(t, a._index_override)] = True
         in_order = all(ranks[t].get(p) == p for t in ranks for p in ranks[t]) and not any(unref.values())
         if in_order:
+            # tables in first-use order, nothing unreferenced: no additional args; an override can
+            # still be justified by the statement's second clause (two table entries with the same
+            # constant key, e.g. two separately folded NaNs), so each one goes through the
+            # remove-and-re-encode test below like any other override in rank position
             v.features["codeobj_first_use_order"] += 1
             if ovr:
-                v.violate("override_on_ordered_code", sorted(set(t for t, _p in ovr))[0],
-                          "%s: tables in first-use order, nothing unreferenced, yet overrides %r" % (path, list(ovr)[:5]))
+                v.features["codeobj_first_use_order_with_override"] += 1
             if cd._additional_args:
                 v.violate("additional_args_on_ordered_code", "present", "%s: %r" % (path, cd._additional_args[:3]))
-            continue
         # additional args == unreferenced entries, per table (multiset)
         add = collections.Counter()
         for a in cd._additional_args:
@@ -760,7 +762,7 @@ def op_c09(args):
             except Exception:
                 same = False
             if same:
-                v.violate("redundant_override", t, "%s: %s entry at position %d == first-use rank, and re-encoding without the override gives the identical code object" % (path, t, pos))
+                v.violate("redundant_override" if not in_order else "override_on_ordered_code", t, "%s: %s entry at position %d == first-use rank, and re-encoding without the override gives the identical code object" % (path, t, pos))
             else:
                 justified += 1
                 v.features["override_needed_despite_rank"] += 1
